@@ -79,6 +79,12 @@ def removeG (must blocked : Bool) : Bool := !must && blocked
 /-- `if consistency_is_required and not consistency_is_achieved: return …` -/
 def earlyG (changingAfter consistent : Bool) : Bool := changingAfter && !consistent
 
+/-- Inside that early exit: `if paused: pass  elif consistency_time is not None: waiting_delays = [max(0,
+consistency_time - now)]  elif not patch_initially_empty: waiting_delays = [0.]` — the cycle comes back when the waiting
+time is over (repair 30557a0), resp. at once when it left because of a carried patch (the rework 02af7ce of 608a57d: carried
+fns that are fulfilled already send nothing and bring no event). Before, the early exit returned the spawning delays only. -/
+def waitG (deadline paused carried : Bool) : Bool := !paused && (deadline || carried)
+
 /-- third `if`: release -/
 def releaseG (deleted ongoing blocked delaysNonEmpty : Bool) : Bool :=
   !deleted && ongoing && blocked && !delaysNonEmpty
@@ -95,6 +101,9 @@ structure In where
   consistent : Bool    -- final value of `consistency_is_achieved` (incl. `patch_initially_empty`)
   spawnDelays : Bool   -- spawning_delays is non-empty
   changeDelays : Bool  -- what process_changing_cause returns (if reached) is non-empty
+  deadline : Bool      -- consistency_time is not None: the worker still awaits the version of its own last patch
+  paused : Bool        -- operator_paused is not None and operator_paused.is_on()
+  carried : Bool       -- not patch_initially_empty: the cycle's patch started with carried fns (all three: read at the early exit only)
   deriving DecidableEq, Repr
 
 structure Decision where
@@ -115,7 +124,8 @@ def decision (i : In) : Decision :=
   { add := add, removeUnneeded := rem,
     release := !early && releaseG i.deletedEvent i.isOngoing i.isBlocked delaysNE,
     handlersRun := chg && !early,
-    delays := if early then i.spawnDelays else delaysNE }   -- the early `return list(spawning_delays), False`
+    -- the early `return list(spawning_delays) + list(waiting_delays), False`
+    delays := if early then i.spawnDelays || waitG i.deadline i.paused i.carried else delaysNE }
 
 /-- The atom vocabulary of the translator (harness/props/c06.py `extract`) for the conditions of
 the block, each read at its own program point. -/
@@ -130,6 +140,9 @@ structure Atoms where
   consistent : Bool      -- `consistency_is_achieved` at the gate
   deletedEvent : Bool    -- `raw_event['type'] == 'DELETED'`
   delaysNonEmpty : Bool  -- `delays` (truthiness) at the release point
+  deadline : Bool        -- `consistency_time is not None` inside the early exit
+  paused : Bool          -- `operator_paused is not None and operator_paused.is_on()` inside the early exit
+  initiallyEmpty : Bool  -- `patch_initially_empty` (= `not patch` at the head of the function) inside the early exit
   deriving DecidableEq, Repr
 
 /-- What is appended to `patch.fns`, in program order. -/
@@ -173,7 +186,14 @@ structure Env where
   mergeChanges : Bool    -- the dict content changes the object (a merge patch that changes nothing — e.g. the
                          -- constant result of an on.event handler — is answered with the old version: NO event)
   userFns : Bool         -- handlers put transformation fns of their own into the patch which have nothing to change
-                         -- (a state-checking fn that is already satisfied): the patch is non-empty, no op results
+                         -- (a state-checking fn that is already satisfied): the patch is non-empty, no op results.
+                         -- INERT in this model since repair b7bf39c (no request = no change: the sleep is kept)
+  carried : Bool         -- … and some of them were carried over from a rejected patch (`memory.remaining_patch`):
+                         -- `patch_initially_empty` fails, the cycle is inconsistent whatever the timing — and comes
+                         -- back at once (zero delay: the rework 02af7ce of 608a57d); `lstepOld` is the layer before
+  waiting : Bool         -- the worker still awaits the version of its own last patch (`consistency_time is not None`)
+                         -- and the operator is not paused: a cycle that leaves as inconsistent returns the rest of
+                         -- the waiting time as a delay (repair 30557a0)
   delReset : Bool        -- this handling pass leaves the mandatory deletion handlers UNFINISHED again: their
                          -- finished record was purged (at the completion of an earlier pass, or because they
                          -- were not selected in a pass that closed: repair 2ae938f) and they are re-invoked
@@ -222,10 +242,13 @@ def inputs (own : String) (v : Snap) (s : State) (e : Env) : In :=
     isBlocked := decide (own ∈ v.fins),
     isOngoing := v.marked,
     deletedEvent := false,
-    consistent := e.consistent && s.mem.isEmpty,        -- patch_initially_empty
+    consistent := (e.consistent && !e.carried) && s.mem.isEmpty,        -- patch_initially_empty
     spawnDelays := s.dmnLive && (v.marked || !v.matchDmn),  -- stop_daemons / match_daemons still wait
     -- the deletion handlers are selected (and can be unfinished) only for the DELETE cause: marked and blocked
-    changeDelays := (v.marked && decide (own ∈ v.fins) && v.matchDel && !(s.delDone && !e.delReset)) || e.otherDelays }
+    changeDelays := (v.marked && decide (own ∈ v.fins) && v.matchDel && !(s.delDone && !e.delReset)) || e.otherDelays,
+    deadline := e.waiting,
+    paused := false,       -- the pause of the operator (peering) is C07's subject: `Env.waiting` = awaited ∧ not paused
+    carried := e.carried || !s.mem.isEmpty }
 
 /-- A cycle starts on an event body: never newer than the server's state, and equal to it if of the same
 version (every change of what `Snap` shows stores a new version). -/
@@ -316,7 +339,7 @@ inductive ReachG (own : String) : State → Prop where
 content, no other handler's delay, no re-scheduled deletion handler. -/
 def quiet : Env :=
   { consistent := true, merge := false, otherChanging := false, otherDelays := false, mergeChanges := false,
-    userFns := false, delReset := false }
+    userFns := false, carried := false, waiting := false, delReset := false }
 
 /-- The labels of one processing cycle that nobody interferes with. -/
 def cycleLabels (s : State) (e : Env) : List Label :=
@@ -351,9 +374,17 @@ inductive ReachGH (own : String) : State → Bool → Prop where
                   us"); a patch that sent no request at all counts as unchanged (repair b7bf39c).
     `cyc…`      — what `apply` knows about the cycle in flight.
   `decide e v` takes the HEAD of the queue as its body `v`; it may find the state inconsistent
-  (`e.consistent = false`, the early `return`) only while a further event is still queued: the worker waits
-  for the version of its own last patch only if that patch changed the object (repair 460c956), and that
-  version then arrives as an event. -/
+  (`e.consistent = false`, the early `return`) only while the worker awaits the version of its own last patch
+  (`e.waiting`: `consistency_time is not None`; it waits only if that patch changed the object, repair 460c956).
+  Whether that version is still to come as an event or has been LOST (the watch stream was cut and re-listed on
+  a newer, foreign version) does not matter any more: such a cycle returns the rest of the waiting time as a
+  delay (repair 30557a0), so it ends in sleep-then-touch unless its patch changes the object.
+  Without an awaited version `consistency_is_achieved` can be false only through `patch_initially_empty`, i.e.
+  carried fns (`e.carried`: handler-supplied ones; the framework's own are never carried, 1c8f3dd): such a cycle
+  returns a zero delay (the rework 02af7ce of 608a57d) — if the carried fns have nothing to change, nothing is sent, the
+  worker touches the object at once and the next cycle is a normal one. (Carried fns that DO change the object are
+  outside this model: their patch is an event. Nor is the pause of the operator modelled: there the early exit
+  returns no delay by design, the un-pausing brings a fresh listing — C07.) -/
 
 structure LState where
   base : State
@@ -363,7 +394,6 @@ structure LState where
   cycMerge : Bool       -- its patch has dict content
   cycChanges : Bool     -- … whose response carried another version than the body the cycle works on
   cycViewRv : Nat       -- the version of that body (`seen_version`)
-  cycUserFns : Bool     -- its patch also holds handler-supplied fns that yield no operation
   deriving DecidableEq, Repr
 
 inductive LLabel where
@@ -408,13 +438,12 @@ def lstep (own : String) (s : LState) : LLabel → Option LState
         | [] => none
         | v' :: rest =>
           if v' != v then none                               -- the worker takes the oldest event
-          -- inconsistent only while another event is queued — or with handler-supplied fns (a carried one makes the
-          -- patch non-empty from the start: `patch_initially_empty`)
-          else if !e.consistent && rest.isEmpty && !e.userFns then none
+          -- inconsistent only while a version is awaited or with a carried patch (either way a delay is returned)
+          else if !e.consistent && !e.waiting && !e.carried then none
           else (step own s.base l).map fun b =>
             { base := b, queue := rest, sleeping := false,
               cycDelays := (decision (inputs own v s.base e)).delays, cycMerge := e.merge, cycChanges := false,
-              cycViewRv := v.rv, cycUserFns := e.userFns }
+              cycViewRv := v.rv }
     | .mergePatch =>
         (step own s.base l).map fun b => { s with base := b, queue := enqueue s b, cycChanges := b.rv != s.cycViewRv }
     | .jsonPatch _ =>
@@ -427,7 +456,7 @@ def lstep (own : String) (s : LState) : LLabel → Option LState
     | .restart =>
         (step own s.base l).map fun b =>
           { base := b, queue := [snap b], sleeping := false, cycDelays := false, cycMerge := false, cycChanges := false,
-            cycViewRv := b.rv, cycUserFns := false }
+            cycViewRv := b.rv }
     | _ =>   -- foreign writes and completions: a new version is an event
         (step own s.base l).map fun b => { s with base := b, queue := enqueue s b }
 
@@ -440,16 +469,14 @@ def LInit (s : LState) : Prop :=
   Init s.base ∧ s.queue = [snap s.base] ∧ s.sleeping = false ∧ s.cycDelays = false ∧ s.cycMerge = false ∧
   s.cycChanges = false
 
-/-- What the liveness theorems assume of the environment (everything else is free):
-* no HTTP 422 is injected without a real concurrent write (Kubernetes answers 422 to the `test` op only when
-  the version has moved, i.e. after a write, whose event is the wake-up; an injected one leaves a non-empty
-  patch with unknown outcome — the sleep is skipped — and no event);
-* no cycle's patch holds handler-supplied fns (open finding F9 = C03-N2: one that was carried over after a 422
-  makes the next cycle leave before the handlers and the release although no other event is queued, and if it
-  has nothing to change no request and no event follow: `carried_fn_loses_wakeup`). -/
+/-- What the liveness theorems assume of the environment (everything else is free): no HTTP 422 is injected
+without a real concurrent write (Kubernetes answers 422 to the `test` op only when the version has moved, i.e.
+after a write, whose event is the wake-up; an injected one leaves a non-empty patch with unknown outcome — the
+sleep is skipped — and no event).
+(Until the repair of finding F9 = C03-N2 a second conjunct excluded handler-supplied fns from every cycle's
+patch, see `lstepOld`.) -/
 def LGuard : LLabel → Prop
   | .base (.jsonPatch forced) => forced = false
-  | .base (.decide e _) => e.userFns = false
   | _ => True
 
 inductive LReach (own : String) : LState → Prop where
@@ -459,6 +486,27 @@ inductive LReach (own : String) : LState → Prop where
 inductive LReachG (own : String) : LState → Prop where
   | init {s} : LInit s → LReachG own s
   | step {s l s'} : LReachG own s → LGuard l → lstep own s l = some s' → LReachG own s'
+
+/-- REGRESSION ONLY: the wake-up layer as the code was BEFORE repair 30557a0 and the repair of F9. A cycle could leave as
+inconsistent while another event was queued — or, with a handler-supplied fn carried over from a rejected patch
+(`e.userFns`: the patch is non-empty from the start, `patch_initially_empty` fails), with NOTHING queued; and the
+early exit returned the spawning delays only. Everything else as `lstep`. -/
+def lstepOld (own : String) (s : LState) : LLabel → Option LState
+  | .base (.decide e v) =>
+      match s.queue with
+      | [] => none
+      | v' :: rest =>
+        if v' != v then none
+        else if !e.consistent && rest.isEmpty && !e.userFns then none
+        else (step own s.base (.decide e v)).map fun b =>
+          { base := b, queue := rest, sleeping := false,
+            cycDelays := (decision { inputs own v s.base e with deadline := false, carried := false }).delays, cycMerge := e.merge,
+            cycChanges := false, cycViewRv := v.rv }
+  | l => lstep own s l
+
+def lrunOld (own : String) (s : LState) : List LLabel → Option LState
+  | [] => some s
+  | l :: ls => (lstepOld own s l).bind (fun s' => lrunOld own s' ls)
 
 /-- The operator's own labels (nothing of the environment). -/
 def LLabel.isOperator : LLabel → Bool
